@@ -62,6 +62,12 @@ Theorem C04_SE2_SE3_embed : forall (X : M33 R) (z : R),
 Proof. intros; split; unfold lift3_ref; gen_ring. Qed.
 Print Assumptions C04_SE2_SE3_embed.
 
+(* multi-valued SE2: element k of the lifted SE3 is the lift of element k (no buffer shared between the elements) *)
+Theorem C04_SE2_SE3_multi : forall (X Y : M33 R) (z : R),
+  tr_SE2_SE3_multi0 Rops X Y z = lift3_ref X z /\ tr_SE2_SE3_multi1 Rops X Y z = lift3_ref Y z.
+Proof. intros; split; unfold lift3_ref; gen_ring. Qed.
+Print Assumptions C04_SE2_SE3_multi.
+
 Theorem C04_SE2_SE3_hom : forall X Y : M33 R,
   tr_SE2_mul_SE3 Rops X Y = tr_SE2_SE3_mul Rops X Y /\
   tr_SE2_SE3_mul Rops X Y = mmul44 Rops (tr_SE2_SE3 Rops X) (tr_SE2_SE3 Rops Y) /\
